@@ -12,7 +12,7 @@ sed -i "s#cp /repo/Cargo.lock#cp $R/Cargo.lock#" setup.sh
 for d in seeded/*/; do
   n=$(basename $d)
   p=$(python3 -c "import json;print(json.load(open('$d/meta.json'))['property'])")
-  if git -C $R apply $d/patch.diff 2>/dev/null; then
+  if git -C $R apply "$(pwd)/$d/patch.diff" 2>/dev/null; then
     out=$(./check $p 2>&1)
     if echo "$out" | grep -q "VIOLATION"; then
       if echo "$out" | grep "VIOLATION" | grep -q "no-failing-input-found"; then echo "$n $p caught-no-input"; else echo "$n $p caught"; fi
